@@ -1,19 +1,757 @@
-//! Engine `tuple` — not built yet (stub).
+//! Engine `tuple` (C18): the real tuple codec (`TupleBuilder`, `Tuple::add_version_with`, `Tuple::delete`,
+//! `TupleReader::parse_for_snapshot`, `Tuple::vaccum_with`) and `Snapshot` against the Lean model.
+//!
+//! One case = one operation sequence on one row:  `t op ; op ; …`
+//!   b <nkeys> <types> <xmin> <row>       build (types: one letter per column, b i I u U f d t; row: comma list of
+//!                                        `n` (NULL) or `x<hex payload>`: little-endian bytes / blob content)
+//!   u <xid> <idx=val,…|->                add_version_with(modified, new_xmin = xid)
+//!   U <xid> <idx=val,…|->                the same, and the new version is stamped with its creator: header xmin := xid
+//!                                        (scaffolding that stands in for the writer `add_version_with` was meant to be,
+//!                                        so that chains with several creators reach the readers and the vacuum)
+//!   x <xid>                              overwrite the header xmin
+//!   d <xid>                              delete (an existing delete mark is overwritten)
+//!   v <horizon>                          vaccum_with
+//!   p                                    reload the tuple from its padded (`full_data`) form, as the log stores it
+//!   l                                    decode the newest version
+//!   r <xid> <xmin> <xmax|-> <active|-> <aborted|->     decode for that snapshot
+//!   c <xid> <xmin> <xmax|-> <active|-> <aborted|-> <ids>   is_committed_before_snapshot for each id
+//!   i <xid> <xmin> <xmax|-> <active|-> <aborted|-> <tmin> <tmax|->   Snapshot::is_tuple_visible (unused by the readers)
+//! Output: one field per op, joined by ` | `.
 use super::{Case, Engine, Tier};
 use crate::rng::Rng;
+use crate::util::{hex, unhex};
+use axmosdb::types::bool::Bool;
+use axmosdb::types::{Blob, DataType, DataTypeKind, Float32, Float64, Int32, Int64, UInt32, UInt64};
+use axmosdb::verif::tuple as vt;
+use std::collections::HashMap;
+use std::panic::{AssertUnwindSafe, catch_unwind};
 
 pub struct TupleEngine;
 
-impl Engine for TupleEngine {
-    fn gen_cases(&self, _rng: &mut Rng, _tier: Tier) -> Vec<Case> {
-        Vec::new()
+const LETTERS: &[(char, DataTypeKind, usize)] = &[
+    ('b', DataTypeKind::Bool, 1),
+    ('i', DataTypeKind::Int, 4),
+    ('I', DataTypeKind::BigInt, 8),
+    ('u', DataTypeKind::UInt, 4),
+    ('U', DataTypeKind::BigUInt, 8),
+    ('f', DataTypeKind::Float, 4),
+    ('d', DataTypeKind::Double, 8),
+    ('t', DataTypeKind::Blob, 0),
+];
+
+fn kind_of(c: char) -> Option<(DataTypeKind, usize)> {
+    LETTERS.iter().find(|l| l.0 == c).map(|l| (l.1, l.2))
+}
+
+/// `n` → NULL, `x<hex>` → a value of the column's kind. None = malformed.
+fn parse_val(kind: DataTypeKind, w: &str) -> Option<DataType> {
+    if w == "n" {
+        return Some(DataType::Null);
     }
-    fn exec(&mut self, _line: &str) -> String {
-        "unimplemented".into()
+    let h = w.strip_prefix('x')?;
+    let b = if h.is_empty() { vec![] } else { unhex(h)? };
+    Some(match kind {
+        DataTypeKind::Bool => {
+            if b.len() != 1 || b[0] > 1 {
+                return None;
+            }
+            DataType::Bool(Bool(b[0] == 1))
+        }
+        DataTypeKind::Int => DataType::Int(Int32(i32::from_le_bytes(b.try_into().ok()?))),
+        DataTypeKind::BigInt => DataType::BigInt(Int64(i64::from_le_bytes(b.try_into().ok()?))),
+        DataTypeKind::UInt => DataType::UInt(UInt32(u32::from_le_bytes(b.try_into().ok()?))),
+        DataTypeKind::BigUInt => DataType::BigUInt(UInt64(u64::from_le_bytes(b.try_into().ok()?))),
+        DataTypeKind::Float => DataType::Float(Float32(f32::from_bits(u32::from_le_bytes(b.try_into().ok()?)))),
+        DataTypeKind::Double => DataType::Double(Float64(f64::from_bits(u64::from_le_bytes(b.try_into().ok()?)))),
+        DataTypeKind::Blob => DataType::Blob(Blob::from_unencoded_slice(&b)),
+        _ => return None,
+    })
+}
+
+fn show_val(v: &DataType) -> String {
+    match v {
+        DataType::Null => "n".into(),
+        DataType::Bool(b) => format!("x{:02x}", b.0 as u8),
+        DataType::Int(x) => format!("x{}", hex(&x.0.to_le_bytes())),
+        DataType::BigInt(x) => format!("x{}", hex(&x.0.to_le_bytes())),
+        DataType::UInt(x) => format!("x{}", hex(&x.0.to_le_bytes())),
+        DataType::BigUInt(x) => format!("x{}", hex(&x.0.to_le_bytes())),
+        DataType::Float(x) => format!("x{}", hex(&x.0.to_bits().to_le_bytes())),
+        DataType::Double(x) => format!("x{}", hex(&x.0.to_bits().to_le_bytes())),
+        DataType::Blob(b) => match b.data() {
+            Ok(d) => format!("x{}", hex(d)),
+            Err(_) => "?".into(),
+        },
     }
 }
 
-/// Content of `lean/AxVerif/Generated/<Engine>.lean`, if this engine extracts constants from the code.
+fn show_row(r: &[DataType]) -> String {
+    let v: Vec<String> = r.iter().map(show_val).collect();
+    format!("row {}", v.join(","))
+}
+
+fn parse_u64(w: &str) -> Option<u64> {
+    if w.is_empty() || w.len() > 20 || !w.bytes().all(|b| b.is_ascii_digit()) {
+        return None;
+    }
+    w.parse().ok()
+}
+
+fn parse_ids(w: &str) -> Option<Vec<u64>> {
+    if w == "-" {
+        return Some(vec![]);
+    }
+    w.split(',').map(parse_u64).collect()
+}
+
+fn parse_snapshot(ws: &[&str]) -> Option<vt::VSnapshot> {
+    if ws.len() != 5 {
+        return None;
+    }
+    let xid = parse_u64(ws[0])?;
+    let xmin = parse_u64(ws[1])?;
+    let xmax = if ws[2] == "-" { None } else { Some(parse_u64(ws[2])?) };
+    let active = parse_ids(ws[3])?;
+    let aborted = parse_ids(ws[4])?;
+    Some(vt::snapshot(xid, xmin, xmax, &active, &aborted))
+}
+
+struct St {
+    kinds: Vec<DataTypeKind>,
+    nkeys: usize,
+    schema: vt::VSchema,
+    tuple: Option<vt::VTuple>,
+}
+
+enum Op {
+    Build(usize, Vec<DataTypeKind>, u64, Vec<DataType>),
+    Update(u64, Vec<(usize, String)>, bool),
+    Stamp(u64),
+    Delete(u64),
+    Vacuum(u64),
+    Pad,
+    Last,
+    Read(vt::VSnapshot),
+    Committed(vt::VSnapshot, Vec<u64>),
+    TupleVisible(vt::VSnapshot, u64, Option<u64>),
+}
+
+fn parse_op(s: &str) -> Option<Op> {
+    let ws: Vec<&str> = s.split(' ').filter(|w| !w.is_empty()).collect();
+    Some(match ws.as_slice() {
+        ["b", nk, types, x0, row] => {
+            let nk: usize = parse_u64(nk)? as usize;
+            let kinds: Option<Vec<(DataTypeKind, usize)>> = types.chars().map(kind_of).collect();
+            let kinds = kinds?;
+            if nk == 0 || nk > kinds.len() || kinds.len() > 255 {
+                return None;
+            }
+            let x0 = parse_u64(x0)?;
+            let cells: Vec<&str> = row.split(',').collect();
+            if cells.len() != kinds.len() {
+                return None;
+            }
+            let vals: Option<Vec<DataType>> = cells.iter().zip(&kinds).map(|(c, k)| parse_val(k.0, c)).collect();
+            Op::Build(nk, kinds.iter().map(|k| k.0).collect(), x0, vals?)
+        }
+        [op @ ("u" | "U"), xid, mods] => {
+            let xid = parse_u64(xid)?;
+            let mut out = Vec::new();
+            if *mods != "-" {
+                for m in mods.split(',') {
+                    let (i, v) = m.split_once('=')?;
+                    let i = parse_u64(i)? as usize;
+                    if i > 255 || out.iter().any(|(j, _)| *j == i) {
+                        return None;
+                    }
+                    out.push((i, v.to_string()));
+                }
+            }
+            Op::Update(xid, out, *op == "U")
+        }
+        ["x", xid] => Op::Stamp(parse_u64(xid)?),
+        ["d", xid] => Op::Delete(parse_u64(xid)?),
+        ["v", h] => Op::Vacuum(parse_u64(h)?),
+        ["p"] => Op::Pad,
+        ["l"] => Op::Last,
+        ["r", rest @ ..] => Op::Read(parse_snapshot(rest)?),
+        ["c", a, b, c, d, e, ids] => {
+            let ids = parse_ids(ids)?;
+            if ids.is_empty() {
+                return None;
+            }
+            Op::Committed(parse_snapshot(&[a, b, c, d, e])?, ids)
+        }
+        ["i", a, b, c, d, e, tmin, tmax] => {
+            let tmax = if *tmax == "-" { None } else { Some(parse_u64(tmax)?) };
+            Op::TupleVisible(parse_snapshot(&[a, b, c, d, e])?, parse_u64(tmin)?, tmax)
+        }
+        _ => return None,
+    })
+}
+
+/// `ok <len> <xmin> <xmax|-> <version> #<bytes>`; `#…` words are moved behind ` ## ` (non-gating) at the end
+fn show_state(t: &vt::VTuple) -> String {
+    let (xmin, xmax, ver) = t.header();
+    let b = t.bytes();
+    format!(
+        "ok {} {} {} {} #{}",
+        b.len(),
+        xmin,
+        xmax.map(|x| x.to_string()).unwrap_or_else(|| "-".into()),
+        ver,
+        hex(&b)
+    )
+}
+
+fn guarded<T>(f: impl FnOnce() -> Result<T, vt::VTupleError>) -> Result<T, &'static str> {
+    match catch_unwind(AssertUnwindSafe(f)) {
+        Ok(Ok(v)) => Ok(v),
+        Ok(Err(_)) => Err("err"),
+        Err(p) => {
+            if std::env::var("AXH_TUPLE_DEBUG").is_ok() {
+                let msg = p.downcast_ref::<String>().cloned().or_else(|| p.downcast_ref::<&str>().map(|s| s.to_string()));
+                eprintln!("panic payload: {:?}", msg);
+            }
+            Err("panic")
+        }
+    }
+}
+
+impl Engine for TupleEngine {
+    fn exec(&mut self, line: &str) -> String {
+        let Some(body) = line.trim().strip_prefix("t ") else {
+            return "bad-op".into();
+        };
+        let mut ops = Vec::new();
+        for s in body.split(" ; ") {
+            match parse_op(s) {
+                Some(op) => ops.push(op),
+                None => return "bad-op".into(),
+            }
+        }
+        // the values of an update are typed by the schema of the build that precedes it
+        let mut st: Option<St> = None;
+        let mut out: Vec<String> = Vec::new();
+        for op in ops {
+            if let Op::Build(nk, kinds, x0, vals) = op {
+                let schema = vt::schema(&kinds, nk);
+                let tuple = guarded(|| vt::build(&schema, vals, x0));
+                out.push(match &tuple {
+                    Ok(t) => show_state(t),
+                    Err(e) => e.to_string(),
+                });
+                st = Some(St { kinds, nkeys: nk, schema, tuple: tuple.ok() });
+                continue;
+            }
+            if let Op::Committed(s, ids) = &op {
+                let v: Vec<&str> = ids.iter().map(|i| if s.is_committed_before(*i) { "1" } else { "0" }).collect();
+                out.push(format!("cb {}", v.join("")));
+                continue;
+            }
+            if let Op::TupleVisible(s, tmin, tmax) = &op {
+                out.push(format!("vis {}", if s.is_tuple_visible(*tmin, *tmax) { 1 } else { 0 }));
+                continue;
+            }
+            let Some(state) = st.as_mut() else {
+                out.push("nostate".into());
+                continue;
+            };
+            let Some(tuple) = state.tuple.as_mut() else {
+                out.push("nostate".into());
+                continue;
+            };
+            match op {
+                Op::Update(xid, mods, stamped) => {
+                    let nvals = state.kinds.len() - state.nkeys;
+                    let mut m: HashMap<usize, DataType> = HashMap::new();
+                    let mut bad = false;
+                    for (i, v) in &mods {
+                        // an index outside the schema can only carry NULL: the code must refuse it
+                        if *i >= nvals {
+                            if v != "n" {
+                                bad = true;
+                            }
+                            m.insert(*i, DataType::Null);
+                            continue;
+                        }
+                        match parse_val(state.kinds[state.nkeys + *i], v) {
+                            Some(d) => {
+                                m.insert(*i, d);
+                            }
+                            None => bad = true,
+                        }
+                    }
+                    if bad {
+                        return "bad-op".into();
+                    }
+                    let schema = &state.schema;
+                    match guarded(|| tuple.add_version(schema, &m, xid)) {
+                        Ok(()) => {
+                            if stamped && !m.is_empty() {
+                                tuple.set_header_xmin(xid);
+                            }
+                            out.push(show_state(tuple))
+                        }
+                        Err(e) => out.push(e.into()),
+                    }
+                }
+                Op::Stamp(xid) => {
+                    tuple.set_header_xmin(xid);
+                    out.push(show_state(tuple));
+                }
+                Op::Delete(xid) => match guarded(|| tuple.delete(xid)) {
+                    Ok(()) => out.push(show_state(tuple)),
+                    Err(e) => out.push(e.into()),
+                },
+                Op::Vacuum(h) => {
+                    let schema = &state.schema;
+                    match guarded(|| tuple.vacuum(schema, h)) {
+                        Ok(freed) => out.push(format!("freed {} {}", freed, show_state(tuple))),
+                        Err(e) => out.push(e.into()),
+                    }
+                }
+                Op::Pad => {
+                    let full = tuple.full_bytes();
+                    match guarded(|| vt::VTuple::from_bytes(&full)) {
+                        Ok(t) => {
+                            *tuple = t;
+                            out.push(show_state(tuple));
+                        }
+                        Err(e) => out.push(e.into()),
+                    }
+                }
+                Op::Last => {
+                    let schema = &state.schema;
+                    match guarded(|| tuple.read_last(schema)) {
+                        Ok(r) => out.push(show_row(&r)),
+                        Err(e) => out.push(e.into()),
+                    }
+                }
+                Op::Read(s) => {
+                    let schema = &state.schema;
+                    match guarded(|| tuple.read_for(schema, &s)) {
+                        Ok(Some(r)) => out.push(show_row(&r)),
+                        Ok(None) => out.push("none".into()),
+                        Err(e) => out.push(e.into()),
+                    }
+                }
+                Op::Build(..) | Op::Committed(..) | Op::TupleVisible(..) => unreachable!(),
+            }
+        }
+        let gating: Vec<String> = out
+            .iter()
+            .map(|o| o.split(' ').filter(|w| !w.starts_with('#')).collect::<Vec<_>>().join(" "))
+            .collect();
+        let diag: Vec<String> = out
+            .iter()
+            .map(|o| o.split(' ').filter(|w| w.starts_with('#')).collect::<Vec<_>>().join(" "))
+            .collect();
+        format!("{} ## {}", gating.join(" | "), diag.join(" "))
+    }
+
+    fn gen_cases(&self, rng: &mut Rng, tier: Tier) -> Vec<Case> {
+        casegen::gen_cases(rng, tier)
+    }
+}
+
+mod casegen {
+    use super::*;
+
+    #[derive(Clone, Copy, PartialEq, Eq)]
+    enum Cs {
+        Before,
+        Future,
+        Active,
+        Aborted,
+        Own,
+    }
+    const STATES: [Cs; 5] = [Cs::Before, Cs::Future, Cs::Active, Cs::Aborted, Cs::Own];
+
+    fn hexle(v: u64, n: usize) -> String {
+        format!("x{}", hex(&v.to_le_bytes()[..n]))
+    }
+
+    /// a non-null value of the kind; `small` = the 4-element grid of the property text
+    fn gen_val(rng: &mut Rng, k: char, small: bool) -> String {
+        match k {
+            'b' => format!("x{:02x}", rng.below(2)),
+            'i' | 'u' | 'f' => {
+                let v = match rng.below(if small { 3 } else { 6 }) {
+                    0 => 0,
+                    1 => 1,
+                    2 => 0xffff_ffff,
+                    3 => 0x7fc0_0001, // a NaN payload when read as f32
+                    4 => 0x8000_0000,
+                    _ => rng.next_u64() & 0xffff_ffff,
+                };
+                hexle(v, 4)
+            }
+            'I' | 'U' | 'd' => {
+                let v = match rng.below(if small { 3 } else { 6 }) {
+                    0 => 0,
+                    1 => 2,
+                    2 => u64::MAX,
+                    3 => 0x7ff8_0000_0000_0001, // NaN payload as f64
+                    4 => 1 << 63,
+                    _ => rng.next_u64(),
+                };
+                hexle(v, 8)
+            }
+            _ => {
+                let n = if small {
+                    *rng.pick(&[0usize, 1, 9])
+                } else {
+                    match rng.below(10) {
+                        0 => 0,
+                        1 => 1,
+                        2 => 9,
+                        3 => 63,
+                        4 => 64, // first length whose zig-zag varint needs two bytes
+                        5 => 200 + rng.below(300) as usize,
+                        6 => {
+                            if rng.chance(1, 8) {
+                                8191 + rng.below(3) as usize // around the three-byte varint
+                            } else {
+                                7
+                            }
+                        }
+                        _ => rng.below(40) as usize,
+                    }
+                };
+                let b: Vec<u8> = (0..n).map(|_| b'a' + rng.below(26) as u8).collect();
+                format!("x{}", hex(&b))
+            }
+        }
+    }
+
+    fn gen_cell(rng: &mut Rng, k: char, small: bool, null_pct: u64) -> String {
+        if rng.chance(null_pct, 100) { "n".into() } else { gen_val(rng, k, small) }
+    }
+
+    /// snapshot text `xid xmin xmax active aborted` realising the wanted state of every writer as far as one
+    /// snapshot can (a "committed before" id above a "future" id is itself in the future)
+    fn snapshot_for(rng: &mut Rng, assign: &[(u64, Cs)], xmax_none: bool) -> String {
+        let maxid = assign.iter().map(|a| a.0).max().unwrap_or(1);
+        let xid = assign.iter().find(|a| a.1 == Cs::Own).map(|a| a.0).unwrap_or(maxid + 1 + rng.below(3));
+        let fut_min = assign.iter().filter(|a| a.1 == Cs::Future).map(|a| a.0).min();
+        let xmax = match fut_min {
+            Some(f) => f.saturating_sub(1),
+            None => maxid.max(xid) + rng.below(3),
+        };
+        let mut active: Vec<u64> = assign.iter().filter(|a| a.1 == Cs::Active).map(|a| a.0).collect();
+        let mut aborted: Vec<u64> = assign.iter().filter(|a| a.1 == Cs::Aborted).map(|a| a.0).collect();
+        if rng.chance(1, 4) {
+            active.push(maxid + 7);
+        }
+        if rng.chance(1, 6) {
+            aborted.push(maxid + 9);
+        }
+        let xmin = active.iter().copied().chain([xid]).min().unwrap();
+        let ids = |v: &[u64]| {
+            if v.is_empty() { "-".to_string() } else { v.iter().map(|x| x.to_string()).collect::<Vec<_>>().join(",") }
+        };
+        let xm = if xmax_none { "-".to_string() } else { xmax.to_string() };
+        format!("{} {} {} {} {}", xid, xmin, xm, ids(&active), ids(&aborted))
+    }
+
+    fn random_snapshot(rng: &mut Rng, writers: &[u64], xmax_none: bool) -> String {
+        let mut own_used = false;
+        let assign: Vec<(u64, Cs)> = writers
+            .iter()
+            .map(|w| {
+                let mut st = *rng.pick(&STATES);
+                if st == Cs::Own {
+                    if own_used {
+                        st = Cs::Before;
+                    }
+                    own_used = true;
+                }
+                (*w, st)
+            })
+            .collect();
+        snapshot_for(rng, &assign, xmax_none)
+    }
+
+    /// every assignment of the five states to the writers (at most one `Own`), capped by sampling
+    fn all_snapshots(rng: &mut Rng, writers: &[u64], cap: usize) -> Vec<String> {
+        let w = writers.len();
+        let total = 5usize.pow(w as u32);
+        let mut out = Vec::new();
+        let mut codes: Vec<usize> = (0..total).collect();
+        if total > cap {
+            rng.shuffle(&mut codes);
+            codes.truncate(cap);
+        }
+        for mut code in codes {
+            let mut assign = Vec::new();
+            let mut owns = 0;
+            for wr in writers {
+                let st = STATES[code % 5];
+                code /= 5;
+                if st == Cs::Own {
+                    owns += 1;
+                }
+                assign.push((*wr, st));
+            }
+            if owns > 1 {
+                continue;
+            }
+            out.push(snapshot_for(rng, &assign, false));
+        }
+        out
+    }
+
+    struct Shape {
+        max_keys: u64,
+        max_vals: u64,
+        max_updates: u64,
+        alphabet: &'static [char],
+        small_values: bool,
+    }
+
+    /// one chain: build, updates (stamped = the writer records its id, raw = the shipped `add_version_with` alone),
+    /// optional delete, optional vacuum, reads for many snapshots
+    fn gen_chain(rng: &mut Rng, sh: &Shape, family: &'static str) -> Case {
+        let mut tags: Vec<&str> = vec![family];
+        let nk = 1 + rng.below(sh.max_keys) as usize;
+        let nv = rng.below(sh.max_vals + 1) as usize;
+        let kinds: Vec<char> = (0..nk + nv).map(|_| *rng.pick(sh.alphabet)).collect();
+        let raw = rng.chance(15, 100);
+        let xmax_none = !raw && rng.chance(8, 100);
+        let pad = !raw && !xmax_none && rng.chance(8, 100);
+        // writer ids: distinct, in random order of magnitude
+        let mut pool: Vec<u64> = (1..40).collect();
+        rng.shuffle(&mut pool);
+        if rng.chance(1, 2) {
+            pool[..8].sort(); // creation order = id order, the realistic case
+        }
+        let mut writers = vec![pool[0]];
+        let mut next_writer = 1;
+        let row: Vec<String> = kinds
+            .iter()
+            .enumerate()
+            .map(|(i, k)| if i < nk { gen_val(rng, *k, sh.small_values) } else { gen_cell(rng, *k, sh.small_values, 30) })
+            .collect();
+        let mut ops = vec![format!("b {} {} {} {}", nk, kinds.iter().collect::<String>(), pool[0], row.join(","))];
+        let nupd = if nv == 0 { 0 } else { rng.below(sh.max_updates + 1) as usize };
+        let quick_reads = |rng: &mut Rng, writers: &[u64], ops: &mut Vec<String>, n: usize| {
+            for _ in 0..n {
+                let s = random_snapshot(rng, writers, xmax_none);
+                ops.push(format!("r {}", s));
+            }
+        };
+        for _ in 0..nupd {
+            // same writer again now and then (a transaction updating twice)
+            let w = if rng.chance(1, 5) { *rng.pick(&writers) } else { pool[next_writer] };
+            if !writers.contains(&w) {
+                writers.push(w);
+                next_writer += 1;
+            }
+            let mut idx: Vec<usize> = (0..nv).filter(|_| rng.chance(1, 2)).collect();
+            if idx.is_empty() && rng.chance(9, 10) {
+                idx.push(rng.below(nv as u64) as usize);
+            }
+            rng.shuffle(&mut idx);
+            let mods: Vec<String> =
+                idx.iter().map(|i| format!("{}={}", i, gen_cell(rng, kinds[nk + i], sh.small_values, 35))).collect();
+            let op = if raw { "u" } else { "U" };
+            ops.push(format!("{} {} {}", op, w, if mods.is_empty() { "-".into() } else { mods.join(",") }));
+            if rng.chance(1, 3) {
+                quick_reads(rng, &writers, &mut ops, 2);
+            }
+        }
+        if nupd > 0 {
+            tags.push(match nupd {
+                1 => "updates-1",
+                2 => "updates-2",
+                3 => "updates-3",
+                _ => "updates-4plus",
+            });
+        }
+        if raw && nupd > 0 {
+            tags.push("raw-update");
+        }
+        if rng.chance(1, 3) {
+            let w = if rng.chance(1, 3) { *rng.pick(&writers) } else { pool[next_writer] };
+            if !writers.contains(&w) {
+                writers.push(w);
+            }
+            ops.push(format!("d {}", w));
+            tags.push("delete");
+        }
+        if pad {
+            ops.push("p".into());
+            tags.push("padded");
+        }
+        ops.push("l".into());
+        let cap = if family == "grid" { 125 } else { 40 };
+        let snaps = all_snapshots(rng, &writers, cap);
+        for s in &snaps {
+            ops.push(format!("r {}", s));
+        }
+        if xmax_none {
+            tags.push("xmax-none");
+            quick_reads(rng, &writers, &mut ops, 6);
+        }
+        if nupd > 0 && !pad && rng.chance(1, 2) {
+            // every horizon: each writer id, one above, and the extremes
+            let mut hs: Vec<u64> = writers.iter().flat_map(|w| [*w, *w + 1]).collect();
+            hs.push(0);
+            hs.push(1000);
+            let h = *rng.pick(&hs);
+            ops.push(format!("v {}", h));
+            tags.push("vacuum");
+            for s in snaps.iter().take(60) {
+                ops.push(format!("r {}", s));
+            }
+            ops.push("l".into());
+            if rng.chance(1, 3) && nv > 0 {
+                // the chain goes on after a vacuum
+                let w = pool[next_writer + 1];
+                let i = rng.below(nv as u64) as usize;
+                let op = if raw { "u" } else { "U" };
+                ops.push(format!("{} {} {}={}", op, w, i, gen_cell(rng, kinds[nk + i], sh.small_values, 35)));
+                writers.push(w);
+                quick_reads(rng, &writers, &mut ops, 6);
+            }
+        }
+        if nupd >= 1 {
+            tags.push("nt");
+        }
+        if kinds.contains(&'t') {
+            tags.push("has-text");
+        }
+        if kinds.contains(&'b') {
+            tags.push("has-bool");
+        }
+        if !raw && !xmax_none {
+            tags.push("clean-region");
+        }
+        Case::new(format!("t {}", ops.join(" ; ")), &tags)
+    }
+
+    fn gen_edge(rng: &mut Rng) -> Vec<Case> {
+        let mut out = Vec::new();
+        let snap = "50 50 49 - -";
+        // API misuse the code answers with an error, and no-op paths
+        for line in [
+            format!("t b 1 UI 5 n,x0100000000000000 ; l ; r {snap}"),
+            format!("t b 1 UI 5 x0100000000000000,n ; u 7 1=n ; l ; r {snap}"),
+            format!("t b 1 UI 5 x0100000000000000,n ; u 7 - ; l ; r {snap}"),
+            format!("t b 1 UI 5 x0100000000000000,n ; u 7 0=n,200=n ; l ; r {snap}"),
+            format!("t b 1 UI 5 x0100000000000000,x0200000000000000 ; d 7 ; d 8 ; l ; r {snap} ; r 7 7 6 - -"),
+            format!("t b 1 UI 5 x0100000000000000,x0200000000000000 ; d 7 ; U 8 0=n ; l ; r {snap} ; r 7 7 6 - - ; r 8 8 7 7 -"),
+            format!("t b 2 Ut 5 x0100000000000000,x6162 ; u 7 - ; v 3 ; l ; r {snap}"),
+            format!("t u 7 0=n ; r {snap} ; l ; b 1 U 5 x0100000000000000 ; l"),
+            format!("t b 3 tbi 1 x,x01,x05000000 ; l ; r {snap} ; d 2 ; r {snap} ; r 2 2 1 - -"),
+        ] {
+            out.push(Case::new(line, &["edge", "clean-region"]));
+        }
+        // the version counter: 300 updates on one row
+        let mut ops = vec!["b 1 Ui 1 x0100000000000000,x00000000".to_string()];
+        for i in 0..300u32 {
+            ops.push(format!("U 2 0={}", hexle(i as u64, 4)));
+            if i % 16 == 0 {
+                ops.push("v 3".into()); // keeps the row short
+            }
+            if i >= 250 && i < 260 {
+                ops.push(format!("r {snap}"));
+            }
+        }
+        ops.push("l".into());
+        out.push(Case::new(format!("t {}", ops.join(" ; ")), &["edge", "version-wrap", "nt"]));
+        // the snapshot predicate on its own
+        for _ in 0..300 {
+            let ids: Vec<u64> = (0..6).map(|_| rng.below(12)).collect();
+            let none = rng.chance(1, 12);
+            let assign: Vec<(u64, Cs)> = ids.iter().map(|i| (*i, *rng.pick(&STATES[..4]))).collect();
+            let s = snapshot_for(rng, &assign, none);
+            let probe: Vec<String> = (0..14u64).map(|x| x.to_string()).collect();
+            let tags: &[&str] =
+                if none { &["committed-before", "xmax-none"] } else { &["committed-before", "clean-region"] };
+            out.push(Case::new(format!("t c {} {}", s, probe.join(",")), tags));
+            // is_tuple_visible for every (creator, deleter) pair of a few ids, incl. the reader's own
+            let xid: u64 = s.split(' ').next().unwrap().parse().unwrap();
+            let mut ids: Vec<u64> = ids.iter().take(3).copied().collect();
+            ids.push(xid);
+            let mut ops = Vec::new();
+            for a in &ids {
+                ops.push(format!("i {} {} -", s, a));
+                for b in &ids {
+                    ops.push(format!("i {} {} {}", s, a, b));
+                }
+            }
+            let tags2: &[&str] =
+                if none { &["tuple-visible", "xmax-none"] } else { &["tuple-visible", "clean-region"] };
+            out.push(Case::new(format!("t {}", ops.join(" ; ")), tags2));
+        }
+        out
+    }
+
+    pub fn gen_cases(rng: &mut Rng, tier: Tier) -> Vec<Case> {
+        let scale = if tier == Tier::Quick { 1 } else { 10 };
+        let mut cases = gen_edge(rng);
+        // the grid of the property text: 1-3 keys, 0-4 values, <= 3 updates, small values, every creator state
+        let grid = Shape { max_keys: 3, max_vals: 4, max_updates: 3, alphabet: &['U', 'i', 'd', 't', 'b'], small_values: true };
+        for _ in 0..10000 * scale {
+            cases.push(gen_chain(rng, &grid, "grid"));
+        }
+        // sampled beyond: up to 12 value columns of every kind, up to 8 updates, long texts
+        let large = Shape {
+            max_keys: 3,
+            max_vals: 12,
+            max_updates: 8,
+            alphabet: &['b', 'i', 'I', 'u', 'U', 'f', 'd', 't', 't'],
+            small_values: false,
+        };
+        for _ in 0..2500 * scale {
+            cases.push(gen_chain(rng, &large, "large"));
+        }
+        cases
+    }
+}
+
+/// `Generated/Tuple.lean`: header sizes, field offsets and the size/alignment table of the value kinds, as the code defines them.
 pub fn generated() -> Option<(&'static str, String)> {
-    None
+    let c = vt::constants();
+    let mut s = String::new();
+    s.push_str("/- REGENERATED on every run by `axh extract` from values evaluated out of /repo. Do not edit. -/\n");
+    s.push_str("import AxVerif.Model.Tuple\n");
+    s.push_str("namespace AxVerif.Generated\n\n");
+    let kind = |name: &str| -> (usize, usize) {
+        let k = c.kinds.iter().find(|k| k.1 == name).unwrap_or_else(|| panic!("kind {name} missing"));
+        (k.2.unwrap_or(0), k.3)
+    };
+    let mut fields = vec![
+        format!("hdrSize := {}", c.header_size),
+        format!("hdrAlign := {}", c.header_align),
+        format!("hdrXminOff := {}", c.header_xmin_offset),
+        format!("hdrXmaxOff := {}", c.header_xmax_offset),
+        format!("hdrVerOff := {}", c.header_version_offset),
+        format!("dhSize := {}", c.delta_header_size),
+        format!("dhAlign := {}", c.delta_header_align),
+        format!("dhXminOff := {}", c.delta_xmin_offset),
+        format!("dhVerOff := {}", c.delta_version_offset),
+        format!("cellAlign := {}", c.cell_alignment),
+    ];
+    for (lean, rust) in [
+        ("bool", "Bool"),
+        ("int", "Int"),
+        ("bigint", "BigInt"),
+        ("uint", "UInt"),
+        ("biguint", "BigUInt"),
+        ("float", "Float"),
+        ("double", "Double"),
+        ("blob", "Blob"),
+    ] {
+        let (size, align) = kind(rust);
+        fields.push(format!("{lean}Size := {size}"));
+        fields.push(format!("{lean}Align := {align}"));
+    }
+    s.push_str("def tupleParams : AxVerif.Tuple.Params :=\n  { ");
+    s.push_str(&fields.join(",\n    "));
+    s.push_str(" }\n");
+    s.push_str("\nend AxVerif.Generated\n");
+    Some(("Tuple.lean", s))
 }
